@@ -793,4 +793,82 @@ theorem u16len_take_add (l : Txt) (a n : Nat) :
     u16len (l.take (a + n)) = u16len (l.take a) + u16len ((l.drop a).take n) := by
   rw [← u16len_append, ← List.take_add]
 
+/-! ### Fold regions computed from the text are line intervals of the document -/
+
+/-- A fold whose two lines are `s < e < n`. -/
+def foldIn (n : Nat) (f : Fold) : Prop := ∃ s e, f.s = UInt32.ofNat s ∧ f.e = UInt32.ofNat e ∧ s < e ∧ e < n
+
+theorem indentedEnd_bound (rest : List Txt) (j e : Nat) (he : e < j) :
+    e ≤ indentedEnd rest j e ∧ indentedEnd rest j e < j + rest.length := by
+  induction rest generalizing j e with
+  | nil => simp [indentedEnd]; omega
+  | cons n rest ih =>
+    simp only [indentedEnd]
+    split
+    · split
+      · have := ih (j + 1) j (by omega)
+        simp only [List.length_cons]; omega
+      · have := ih (j + 1) e (by omega)
+        simp only [List.length_cons]; omega
+    · simp only [List.length_cons]; omega
+
+theorem directiveFoldsFrom_in (fx : Fixes) (ls : List Txt) (i : Nat) :
+    ∀ f ∈ directiveFoldsFrom fx ls i, foldIn (i + ls.length) f := by
+  induction ls generalizing i with
+  | nil => simp [directiveFoldsFrom]
+  | cons l rest ih =>
+    intro f hf
+    simp only [directiveFoldsFrom, List.mem_append] at hf
+    rcases hf with hf | hf
+    · split at hf
+      · split at hf
+        · rename_i hgt
+          simp only [List.mem_singleton] at hf
+          subst hf
+          have := indentedEnd_bound rest (i + 1) i (by omega)
+          exact ⟨i, indentedEnd rest (i + 1) i, rfl, rfl, hgt, by simp only [List.length_cons]; omega⟩
+        · simp at hf
+      · simp at hf
+    · obtain ⟨s, e, h1, h2, h3, h4⟩ := ih (i + 1) f hf
+      exact ⟨s, e, h1, h2, h3, by simp only [List.length_cons]; omega⟩
+
+theorem closeBlock_in {start : Option (Nat × Bool)} {i n : Nat} (hi : i ≤ n) :
+    ∀ f ∈ closeBlock start i, foldIn n f := by
+  intro f hf
+  unfold closeBlock at hf
+  split at hf
+  · rename_i s cls
+    split at hf
+    · rename_i hgt
+      simp only [List.mem_singleton] at hf
+      subst hf
+      exact ⟨s, i - 1, rfl, rfl, hgt, by omega⟩
+    · simp at hf
+  · simp at hf
+
+theorem commentFoldsFrom_in (fx : Fixes) (ls : List Txt) (i : Nat) (start : Option (Nat × Bool)) :
+    ∀ f ∈ commentFoldsFrom fx ls i start, foldIn (i + ls.length) f := by
+  induction ls generalizing i start with
+  | nil =>
+    intro f hf
+    simp only [commentFoldsFrom] at hf
+    exact closeBlock_in (by simp) f hf
+  | cons l rest ih =>
+    intro f hf
+    have hlen : i + 1 + rest.length = i + (l :: rest).length := by simp only [List.length_cons]; omega
+    simp only [commentFoldsFrom] at hf
+    split at hf
+    · split at hf
+      · rw [← hlen]; exact ih _ _ f hf
+      · split at hf
+        · simp only [List.mem_append] at hf
+          rcases hf with hf | hf
+          · exact closeBlock_in (by simp only [List.length_cons]; omega) f hf
+          · rw [← hlen]; exact ih _ _ f hf
+        · rw [← hlen]; exact ih _ _ f hf
+    · simp only [List.mem_append] at hf
+      rcases hf with hf | hf
+      · exact closeBlock_in (by simp only [List.length_cons]; omega) f hf
+      · rw [← hlen]; exact ih _ _ f hf
+
 end HL.Lemmas.Ranges
